@@ -13,7 +13,7 @@ package labels
 //@ spec lvalue(L model.LabelSet, n string) string = n in L ? L[n] : ""
 
 //@ func (*Matcher).Matches
-//@   props C16
+//@   props C16 C02 C03 C07
 //@   requires validMatcher(m)
 //@   after call Regexp).MatchString assume res0 == reMatch(m.re, s)
 //@   ensures [semantics] result == holds(m, s)
@@ -23,7 +23,7 @@ package labels
 // reading as the empty string. (Declared pure: other packages use it as a deterministic predicate of the list and
 // the label set, both immutable once built.)
 //@ func (Matchers).Matches
-//@   props C16
+//@   props C16 C02 C03 C07
 //@   pure
 //@   assumes forall i int :: 0 <= i && i < len(ms) ==> validMatcher(ms[i])
 //@   ensures [all-hold] result == (forall i int :: 0 <= i && i < len(ms) ==> holds(ms[i], lvalue(lset, ms[i].Name)))
